@@ -103,6 +103,7 @@ RULES = {
     'R7': 'OPT.map(|v| { B })  ->  match OPT { Some(v) => Some({ B }), None => None }',
     'R8': 'Q.get(i) >= P.get(i) on Option<&T>  ->  *Q.get(i).unwrap() >= *P.get(i).unwrap() (equal when both are Some; the unwraps become obligations)',
     'R9': 'in constructors: assert!(c, msg) -> if !(c) { ctor_reject(); }  (a constructor that panics has not accepted its arguments; ctor_reject() never returns)',
+    'R10': 'for [&]v in Q.iter() { B }  ->  for r10_i in 0..Q.len() { let v = [&]Q[r10_i]; B }',
     'R6': 'Vec::last().copied() -> same call on a shim helper vec_last(&v) (contract: last element or None)',
 }
 
@@ -129,6 +130,9 @@ def rewrite_body(s, applied):
         s = s[:m.start()] + 'match %s { Some(%s) => Some({%s}), None => None }' % (m.group(1), m.group(2), s[b + 1:c]) + s[c + 2:]
         applied.add('R7')
     s = sub('R8', r'if (self\.\w+\.get\(\w+\)) >= (self\.\w+\.get\(\w+\)) \{', r'if *\1.unwrap() >= *\2.unwrap() {', s)
+    # R10: plain iterator loops over a deque/vec -> index loops (fresh index r10_i; contracts refer to the loop index as @I@)
+    s = sub('R10', r'for &(\w+) in ((?:self\.)?\w+)\.iter\(\) \{', r'for r10_i in 0..\2.len() { let \1 = \2[r10_i];', s)
+    s = sub('R10', r'for (\w+) in ((?:self\.)?\w+)\.iter\(\) \{', r'for r10_i in 0..\2.len() { let \1 = &\2[r10_i];', s)
     s = sub('R6', r'self\.(\w+)\.last\(\)\.copied\(\)', r'vec_last(&self.\1)', s)
     return s
 
@@ -349,12 +353,14 @@ def inject_fn(em, module, vc, header, body, is_trait_impl, struct_name):
     loops = find_loops(body)
     inserts = []   # (position, text, kind, k)
     for k, (hs, b, c) in enumerate(loops):
+        lv = re.match(r'for\s+(\w+)\s+in', body[hs:b])
+        lvn = lv.group(1) if lv else 'i'
         lt = vc.get('loop %s %d' % (name, k))
         if lt:
-            inserts.append((b, ('LOOP', k, lt)))
+            inserts.append((b, ('LOOP', k, lt.replace('@I@', lvn))))
         le = vc.get('loopend %s %d' % (name, k))
         if le:
-            inserts.append((c, ('LOOPEND', k, le)))
+            inserts.append((c, ('LOOPEND', k, le.replace('@I@', lvn))))
     tail = vc.tail if (name == 'update' and is_trait_impl) else []
     for k, m in enumerate(re.finditer(r'\breturn\b', body)):
         rt = vc.get('return %s %d' % (name, k))
